@@ -22,7 +22,10 @@ RULE = ('configurations: every signed format (1,iw,fw) with iw+fw <= 8 in same-f
         'random; mixed-format multiplier configurations (af, bf, rf) with low = fa+fb-fr >= 0: all triples of formats up to 3 bits '
         'exhaustively, sampled triples of larger formats; output-width configurations: the comparator\'s gt/eq/lt wires and the sign '
         'wire 1..4 bits wide (1..9 in thorough), uniform and mixed, for every format up to 5 bits (7 in thorough) exhaustively and some wide '
-        'formats -- reference = the 0/1 flag masked to the wire.  evaluations = block outputs judged.  Non-trivial: both operands non-zero; '
+        'formats -- reference = the 0/1 flag masked to the wire; composition configurations: the operand wires are two top-level wires (flat), '
+        'a parent wire and a wire created inside the user block with the SAME local name (explicit name, or both numbered i0 by LogicHelper) or '
+        'a different one, or one wire on both ports (flat and nested), for every format up to 5 bits (7 in thorough), three wide formats and '
+        'mixed-format multiplier triples.  evaluations = block outputs judged.  Non-trivial: both operands non-zero; '
         'distinct by content (configuration, x, y); in the thorough tier only the cases whose content hash is 0 mod 16 are registered, so '
         'distinct_nontrivial is a lower bound there (keeps the merged set small)')
 SHARDS = {'quick': 1, 'thorough': 16}
@@ -45,53 +48,120 @@ def config_class(af, bf, rf):
     return 'mixed_window_fits'
 
 
+SCOPES = ('flat', 'nested_equal_names', 'nested_helper_names', 'nested_distinct_names', 'same_wire', 'nested_same_wire')
+_WRAP = None
+
+
+def wrap_class():
+    """A user block that receives operand a from its parent, derives operand b *inside itself* (a Buf of its second input,
+    so the value is still under the harness's control) and instantiates the fixed-point blocks on (a, inner b).  The
+    inner wire can be given the same local name as the parent's wire, or both can be numbered by LogicHelper ('i0' in
+    the parent and 'i0' in the child) -- wire names are only unique within one parent."""
+    global _WRAP
+    if _WRAP is None:
+        import py4hw
+
+        class Wrap(py4hw.Logic):
+            def __init__(self, parent, name, a, bsrc, af, bf, rf, outs, scope, inner_name):
+                super().__init__(parent, name)
+                a = self.addIn('pa', a)
+                bsrc = self.addIn('pb', bsrc)
+                for k, w in outs.items():
+                    for j, ww in enumerate(w if isinstance(w, list) else [w]):
+                        self.addOut('o_%s%d' % (k, j), ww)
+                if scope == 'nested_helper_names':
+                    b = py4hw.LogicHelper(self).hw_buf(bsrc)
+                elif scope == 'nested_same_wire':
+                    b = a
+                else:
+                    b = self.wire(inner_name, bsrc.getWidth())
+                    py4hw.Buf(self, 'buf_b', bsrc, b)
+                self.inner_b = b
+                instantiate(py4hw, self, a, b, af, bf, rf, outs)
+        _WRAP = Wrap
+    return _WRAP
+
+
+def instantiate(py4hw, scope_obj, a, b, af, bf, rf, outs):
+    py4hw.FixedPointMult(scope_obj, 'mul', a, af, b, bf, outs['mult'], rf)
+    if 'add' in outs:
+        py4hw.FixedPointAdd(scope_obj, 'add', a, af, b, bf, outs['add'], rf)
+        py4hw.FixedPointSub(scope_obj, 'sub', a, af, b, bf, outs['sub'], rf)
+        py4hw.FixedPointSign(scope_obj, 'sgn', a, af, outs['sign'])
+        py4hw.FixedPointComparator(scope_obj, 'cmp', a, af, b, bf, *outs['cmp'])
+
+
 class Rig:
     """All blocks that accept the configuration, on shared input wires."""
 
     def __init__(self, af, bf, rf, flags=(1, 1, 1, 1)):
-        # flags = widths of the (gt, eq, lt, sign) output wires: a flag wire wider than one bit is legal (the value is
-        # zero-extended into it), so the reference for it is the same 0/1 masked to the wire
+        # flags[:4] = widths of the (gt, eq, lt, sign) output wires: a flag wire wider than one bit is legal (the value is
+        # zero-extended into it), so the reference for it is the same 0/1 masked to the wire.
+        # flags[4] (optional) = composition scope, one of SCOPES: where the two operand wires live and what they are called.
         import py4hw
         self.flags = tuple(flags)
+        self.scope = self.flags[4] if len(self.flags) > 4 else 'flat'
         self.af, self.bf, self.rf = tuple(af), tuple(bf), tuple(rf)
         self.same = self.af == self.bf == self.rf
         hw = py4hw.HWSystem()
         wa, wb, wr = sum(af), sum(bf), sum(rf)
-        self.a, self.b = hw.wire('a', wa), hw.wire('b', wb)
-        self.rm = hw.wire('rm', wr)
+        outs = dict(mult=hw.wire('rm', wr))
+        if self.same:
+            outs.update(add=hw.wire('ra', wr), sub=hw.wire('rs', wr), sign=hw.wire('sg', self.flags[3]),
+                        cmp=[hw.wire(n, w) for n, w in zip(('gt', 'eq', 'lt'), self.flags[:3])])
+        self.outs = outs
+        self.operand_names = None
         with muted():
-            py4hw.FixedPointMult(hw, 'mul', self.a, self.af, self.b, self.bf, self.rm, self.rf)
-            if self.same:
-                self.ra, self.rs = hw.wire('ra', wr), hw.wire('rs', wr)
-                self.sg = hw.wire('sg', self.flags[3])
-                self.cmp = [hw.wire(n, w) for n, w in zip(('gt', 'eq', 'lt'), self.flags[:3])]
-                py4hw.FixedPointAdd(hw, 'add', self.a, self.af, self.b, self.bf, self.ra, self.rf)
-                py4hw.FixedPointSub(hw, 'sub', self.a, self.af, self.b, self.bf, self.rs, self.rf)
-                py4hw.FixedPointSign(hw, 'sgn', self.a, self.af, self.sg)
-                py4hw.FixedPointComparator(hw, 'cmp', self.a, self.af, self.b, self.bf, *self.cmp)
+            if self.scope == 'flat':
+                self.a, self.b = hw.wire('a', wa), hw.wire('b', wb)
+                instantiate(py4hw, hw, self.a, self.b, self.af, self.bf, self.rf, outs)
+                self.operand_names = ('a', 'b')
+            elif self.scope == 'same_wire':
+                assert wa == wb
+                self.a = self.b = hw.wire('a', wa)
+                instantiate(py4hw, hw, self.a, self.a, self.af, self.bf, self.rf, outs)
+                self.operand_names = ('a', 'a')
+            else:
+                if self.scope == 'nested_same_wire':
+                    assert wa == wb
+                # the poked wires are the sources; the operand wires proper are derived from them
+                self.a_src, self.b = hw.wire('src_a', wa), hw.wire('src_b', wb)
+                if self.scope == 'nested_helper_names':
+                    a_op = py4hw.LogicHelper(hw).hw_buf(self.a_src)            # 'i0' in the parent
+                    inner = None
+                else:
+                    a_op = hw.wire('x', wa)
+                    py4hw.Buf(hw, 'buf_a', self.a_src, a_op)
+                    inner = 'x' if self.scope == 'nested_equal_names' else 'inner_b'
+                self.a = self.a_src
+                w = wrap_class()(hw, 'user', a_op, self.b, self.af, self.bf, self.rf, outs, self.scope, inner)
+                self.operand_names = (a_op.name, w.inner_b.name)
             self.sim = hw.getSimulator()
 
     def step(self, x, y):
         self.a.put(x)
-        self.b.put(y)
+        if self.b is not self.a:
+            self.b.put(y)
         with muted():
             self.sim.propagateAll()
-        out = dict(mult=self.rm.get())
+        o = self.outs
+        out = dict(mult=o['mult'].get())
         if self.same:
-            out.update(add=self.ra.get(), sub=self.rs.get(), sign=self.sg.get(), cmp=tuple(w.get() for w in self.cmp))
+            out.update(add=o['add'].get(), sub=o['sub'].get(), sign=o['sign'].get(), cmp=tuple(w.get() for w in o['cmp']))
         return out
 
 
 def judge(af, bf, rf, x, y, out, stats, flags=(1, 1, 1, 1)):
     """Returns (evaluations, violations) for one observed step."""
-    fl = 'all_flags_1_bit' if tuple(flags) == (1, 1, 1, 1) else 'flag_wires_wider_than_1_bit'
+    fl = 'all_flags_1_bit' if tuple(flags[:4]) == (1, 1, 1, 1) else 'flag_wires_wider_than_1_bit'
+    scope = flags[4] if len(flags) > 4 else 'flat'
     vs = []
     n = 0
     wa, wb, wr = sum(af), sum(bf), sum(rf)
     sx, sy = sgn(x, wa), sgn(y, wb)
     cc = config_class(af, bf, rf)
     mr = (1 << wr) - 1
-    tag = 'af=%r bf=%r rf=%r a=%#x (%d) b=%#x (%d)' % (tuple(af), tuple(bf), tuple(rf), x, sx, y, sy)
+    tag = 'af=%r bf=%r rf=%r%s a=%#x (%d) b=%#x (%d)' % (tuple(af), tuple(bf), tuple(rf), '' if scope == 'flat' else ' scope=' + scope, x, sx, y, sy)
     # ---- multiplier: exact product of the signed values, bit-truncated (floor) to the result format
     low = af[2] + bf[2] - rf[2]
     p = sx * sy
@@ -102,7 +172,9 @@ def judge(af, bf, rf, x, y, out, stats, flags=(1, 1, 1, 1)):
         got = out['mult']
         dw = wa + wb
         lo = max(low, 0)
-        alts = (('bits_above_double_width_read_as_zero', ((p & ((1 << dw) - 1)) >> lo) & mr),
+        alts = (('first_operand_squared', (((sx * sx) >> lo) & mr) if (scope != 'flat' and sx != sy) else None),
+                ('second_operand_squared', (((sy * sy) >> lo) & mr) if (scope != 'flat' and sx != sy) else None),
+                ('bits_above_double_width_read_as_zero', ((p & ((1 << dw) - 1)) >> lo) & mr),
                 ('unsigned_product', ((x * y) >> lo) & mr),
                 ('rounded_toward_zero', (abs(p) >> lo) * (1 if p >= 0 else -1) & mr),
                 ('window_one_bit_high', (p >> (lo + 1)) & mr),
@@ -110,7 +182,7 @@ def judge(af, bf, rf, x, y, out, stats, flags=(1, 1, 1, 1)):
                 ('window_at_fr_only', (p >> rf[2]) & mr),
                 ('no_rescale', p & mr))
         rel = next((k for k, a in alts if a == got), 'other') if low >= 0 else 'other'
-        vs.append(V('fxp_mult', dict(block='FixedPointMult', config_class=cc, relation=rel, product='negative' if p < 0 else 'non_negative'),
+        vs.append(V('fxp_mult', dict(block='FixedPointMult', config_class=cc, scope=scope, relation=rel, product='negative' if p < 0 else 'non_negative'),
                     exp, got, 'FixedPointMult %s: exact product %d * 2**-%d, expected word %#x observed %#x [%s]' % (tag, p, af[2] + bf[2], exp, got, rel)))
     if cc != 'same_format':
         return n, vs
@@ -123,12 +195,12 @@ def judge(af, bf, rf, x, y, out, stats, flags=(1, 1, 1, 1)):
             d = (out[name] - e) & m
             other = {'add': (sx - sy) & m, 'sub': (sy - sx) & m}[name]
             rel = 'off_by_one' if d in (1, m) else ('operands_or_operation_swapped' if out[name] == other and other != e else 'other')
-            vs.append(V('fxp_' + name, dict(block=blk, config_class=cc, relation=rel), e, out[name],
+            vs.append(V('fxp_' + name, dict(block=blk, config_class=cc, scope=scope, relation=rel), e, out[name],
                         '%s %s: expected %#x observed %#x' % (blk, tag, e, out[name])))
     n += 1
     stats['sign'] += 1
     if out['sign'] != (x >> (w - 1)) & 1:
-        vs.append(V('fxp_sign', dict(block='FixedPointSign', config_class=cc, flag_wires=fl,
+        vs.append(V('fxp_sign', dict(block='FixedPointSign', config_class=cc, scope=scope, flag_wires=fl,
                                      relation='inverted' if out['sign'] in (0, 1) else ('upper_bits_of_flag_wire_set' if out['sign'] & 1 == (x >> (w - 1)) & 1 else 'other')),
                     (x >> (w - 1)) & 1, out['sign'], 'FixedPointSign %s: expected %d observed %d' % (tag, (x >> (w - 1)) & 1, out['sign'])))
     d = sx - sy
@@ -143,7 +215,7 @@ def judge(af, bf, rf, x, y, out, stats, flags=(1, 1, 1, 1)):
                 rel = 'upper_bits_of_flag_wire_set:' + '+'.join(bad)
             else:
                 rel = 'gt_lt_swapped' if g == (e[2], e[1], e[0]) else ('not_one_hot' if sum(g) != 1 else 'other')
-            vs.append(V('fxp_cmp', dict(block='FixedPointComparator', config_class=cc, relation=rel, flag_wires=fl,
+            vs.append(V('fxp_cmp', dict(block='FixedPointComparator', config_class=cc, scope=scope, relation=rel, flag_wires=fl,
                                         operands='equal' if d == 0 else ('same_sign' if (sx < 0) == (sy < 0) else 'opposite_sign')),
                         dict(zip(('gt', 'eq', 'lt'), e)), dict(zip(('gt', 'eq', 'lt'), g)),
                         'FixedPointComparator %s (flag wire widths gt,eq,lt=%r): expected gt,eq,lt=%r observed %r' % (tag, tuple(flags[:3]), e, g)))
@@ -210,11 +282,32 @@ def configs(tier, seed):
     for f in WIDE[:3] + [(1, 3, 4)]:
         for fl in ((4, 4, 4, 4), (2, 3, 4, 2)):
             out.append((f, f, f, 'boundary', fl))
+    # composition configurations: where the two operand wires live and what they are called (SCOPES).  A block must compute the
+    # same function of the VALUES on its ports whether the wires are two top-level wires, a parent's wire and a wire created
+    # inside the user block with the same local name (explicitly, or both numbered 'i0' by LogicHelper), or one wire on both ports.
+    for f in small_formats(4 if tier == 'quick' else 6) + [(1, 7, 8), (1, 15, 16), (1, 31, 32)]:
+        for sc in SCOPES[1:]:
+            out.append((f, f, f, 'exhaustive' if sum(f) <= (6 if tier == 'quick' else 7) else 'boundary', (1, 1, 1, 1, sc)))
+    n = 0
+    for af, bf, rf in [((1, 0, 15), (1, 0, 15), (1, 15, 16)), ((1, 7, 8), (1, 7, 8), (1, 15, 16)), ((1, 3, 4), (1, 7, 8), (1, 11, 12)),
+                       ((1, 1, 2), (1, 2, 1), (1, 2, 2)), ((1, 0, 3), (1, 3, 0), (1, 3, 3)), ((1, 2, 2), (1, 2, 2), (1, 4, 4))] + \
+            [(rnd.choice(pool), rnd.choice(pool), rnd.choice(pool)) for _ in range(20 if tier == 'quick' else 200)]:
+        if af == bf == rf or af[2] + bf[2] - rf[2] < 0:
+            continue
+        for sc in SCOPES[1:]:
+            if sc.endswith('same_wire') and sum(af) != sum(bf):
+                continue
+            n += 1
+            out.append((af, bf, rf, 'exhaustive' if sum(af) + sum(bf) <= 10 else 'boundary', (1, 1, 1, 1, sc)))
     return out
 
 
-def operand_pairs(af, bf, mode, tier, rnd):
+def operand_pairs(af, bf, mode, tier, rnd, scope='flat'):
     wa, wb = sum(af), sum(bf)
+    if scope.endswith('same_wire'):
+        # one wire on both ports: the second operand IS the first
+        xs = range(1 << wa) if mode == 'exhaustive' else bset(wa, af[2], rnd, 40 if tier == 'quick' else 400)
+        return ((x, x) for x in xs)
     if mode == 'exhaustive':
         return itertools.product(range(1 << wa), range(1 << wb))
     nb = 6 if tier == 'quick' else 24
@@ -256,11 +349,14 @@ def run_check(run, tier, seed, shard):
                'result formats with more fraction bits than fa+fb (low < 0) are refused by the constructor and counted as refused')
     run.assume('output wires: Add/Sub/Mult assert r.getWidth() == sum(rf), so only the flag wires (gt, eq, lt, sign) can be wider than '
                'their natural width; a wider flag wire must read the zero-extended 0/1')
+    run.assume('composition: a block computes a function of the values on its ports; which scope the operand wires were created in and what their '
+               'local names are must not matter; the same wire on both ports means b = a')
     cfgs = configs(tier, seed)
     i, nsh = shard if shard else (0, 1)
     stats = Stats()
     per_class = Stats()
     formats_done = Stats()
+    operand_wire_names = {}
     deadline = time.time() + (500 if tier == 'quick' else 2400)
     ncfg = 0
     for k, (af, bf, rf, mode, flags) in enumerate(cfgs):
@@ -284,12 +380,15 @@ def run_check(run, tier, seed, shard):
             continue
         ncfg += 1
         per_class['configs_' + cc] += 1
-        if flags != (1, 1, 1, 1):
+        if flags[:4] != (1, 1, 1, 1):
             per_class['configs_with_wide_flag_wires'] += 1
+        scope = flags[4] if len(flags) > 4 else 'flat'
+        per_class['configs_scope_' + scope] += 1
+        operand_wire_names[scope] = '%s / %s' % R.operand_names
         rnd = rng(seed, 'C14', 'ops', af, bf, rf, flags, shard)
         e0 = run.evaluations
         npairs = 0
-        for j, (x, y) in enumerate(operand_pairs(af, bf, mode, tier, rnd)):
+        for j, (x, y) in enumerate(operand_pairs(af, bf, mode, tier, rnd, scope)):
             if heavy and j % nsh != i:
                 continue
             try:
@@ -310,17 +409,19 @@ def run_check(run, tier, seed, shard):
                 if run.too_many:
                     break
             if run.evaluations % 10007 < n:
-                run.sample(dict(af=af, bf=bf, rf=rf, flag_wire_widths=flags, a=hex(x), b=hex(y), observed={kk: (hex(v) if isinstance(v, int) else v) for kk, v in out.items()}))
+                run.sample(dict(af=af, bf=bf, rf=rf, flag_wire_widths=flags[:4], scope=scope, operand_wire_names=R.operand_names, a=hex(x), b=hex(y), observed={kk: (hex(v) if isinstance(v, int) else v) for kk, v in out.items()}))
             if npairs % 4096 == 0 and time.time() > deadline:
                 run.inconclusive.append('watchdog hit inside configuration %r' % ((af, bf, rf),))
                 break
         per_class['evaluations_' + cc] += run.evaluations - e0
+        per_class['evaluations_scope_' + scope] += run.evaluations - e0
         if cc == 'same_format' and flags == (1, 1, 1, 1):
             formats_done['%d.%d.%d' % af] += npairs
     run.extra['configurations'] = ncfg
     run.extra['per_config_class'] = dict(per_class)
     run.extra['judged_per_block'] = dict(stats)
     run.extra['same_format_operand_pairs'] = dict(formats_done)
+    run.extra['operand_wire_local_names_per_scope'] = operand_wire_names
     if shard is None:
         _floors(run, stats)
 
